@@ -302,5 +302,58 @@ TEXTS = {
                  "reported range. tests/testdata holds only .wasm files (no module text to analyse)."),
         "technique": "Coq proof (structural induction on the text; parser-combinator style recognisers with a capture invariant) + extracted-model differential testing against regex/text_lines + proved decision procedures run on real analyser output (corpus and generated)",
     },
+    "C09": {
+        "text": ("Three layers. (L) Coq theorems, for all inputs, over a line-by-line model of the export-subset lattice "
+                 "of the public-range tracer (NamedSubset / Exports / ImportedExports, range_finder.rs:41-278): with den(x) the "
+                 "set of qualified export paths x covers, extend/add lose nothing (sound), report every requested and "
+                 "not-yet-traced path in the returned difference (covers - an under-approximation would be an untraced "
+                 "export), report nothing that was not requested (no_more), and a difference that denotes anything "
+                 "strictly grows a bounded measure (worklist termination); add/add_qualified/from_parts/add_named are "
+                 "characterised denotationally; the IndexMap invariant is preserved. DESIGN's exactness laws are refuted "
+                 "in one class (a qualified `default` meets Star: the code over-approximates to StarWithDefault) and "
+                 "proved outside it. The model is tied to the private Rust types through the cfg-guarded hooks: random "
+                 "operation sequences and ALL pairs of small lattice elements, compared structurally. (P) A decision "
+                 "procedure closedb, proved equivalent to the declarative statement Closed (parses; no module-level "
+                 "identifier of the original left unresolved; every imported/re-exported name exported by the target's "
+                 "emitted text through export-star chains; relative specifiers resolve; source map well formed, in "
+                 "range and identifier-preserving), judges the facts of EVERY real emitted module of the 143 corpus "
+                 "specs and of hundreds/thousands of generated multi-package worlds. (T) The tracer and the SWC "
+                 "transform themselves are not modelled: that all outputs are closed is checked per output, not proved. "
+                 "One genuine closure defect is recorded (F-C09a: ambient classes keep private members whose types "
+                 "reference declarations that were never traced; present in the repository's own spec corpus)."),
+        "design_ref": "DESIGN.md section 5 'C09 - C11 shared machinery' (L) and 'C09' (per-output decision)",
+        "note": ("Trusted: Coq kernel; extraction; the harness's fact extraction (deno_ast re-parse with SWC scope "
+                 "analysis, export-table reading, own base64-VLQ decoder, identifier tokenisation by columns in UTF-16 "
+                 "units) and its JSON<->s-expression conversion of lattice values; the hooks in /repo are thin wrappers. "
+                 "Source maps: checked, not proved. Partial: no theorem about analyze_module_info / "
+                 "resolve_deps_with_namespace / transform."),
+        "technique": "Coq proof (mutual induction over the lattice, denotational laws, measure) + exhaustive/random differential testing through hooks + proved decision procedure run on real fast-check outputs",
+    },
+    "C12": {
+        "text": ("Coq theorems over an executable model of the fast-check package driver (find's package worklist with "
+                 "cache lookup and hash validation, transform_package, cache fill, build_fast_check_type_graph, slot "
+                 "assignment) over abstract per-module outcomes: a package transformed in the run is all-or-nothing "
+                 "(no errors: every ESM module of the traced set gets output and no entrypoint a diagnostic; errors: "
+                 "no module gets output and every entrypoint carries them); written cache entries are homogeneous; a "
+                 "replayed successful entry gives every listed module its output, a replayed failed entry gives no "
+                 "output and `cached` diagnostics to the listed modules; the slots do not depend on the order in which "
+                 "the package HashMap is iterated; the packages handled are the dependency closure of the top-level "
+                 "ones; and cache transparency of emitted modules under an explicit, decidable read-set hypothesis "
+                 "(theorem named _partial). Two statements are refuted in the model and on the real code (known "
+                 "findings): after a cache hit on a FAILED package an entrypoint that lies behind the first error has "
+                 "neither output nor diagnostics (F-C12a), and a failed entry keeps validating after the module that "
+                 "caused the failure changed, because only the modules up to the first error are hashed (F-C12b: the "
+                 "package passes without cache and fails with it). A third divergence of real outputs with/without "
+                 "cache (F-C12c: cross-package `export *` + default export) lies in the tracer, outside the model, and "
+                 "is judged relationally. The model is tied to the code on every run: hundreds/thousands of 8-step "
+                 "histories (cold/warm/stale cache, edits of every kind) where slots, cache content and cache traffic "
+                 "predicted by the extracted model are compared with the real ones and the real slots are judged."),
+        "design_ref": "DESIGN.md section 5 C12",
+        "note": ("Trusted: Coq kernel; extraction; the harness's abstraction (interning of specifiers, package "
+                 "name@versions, emitted text+source map, source texts as hashes, diagnostic codes), the tracer hook "
+                 "in /repo (read-only dump), the in-memory FastCheckCache. Partial: tracer and transform are data; "
+                 "transparency has the read-set property as hypothesis; dependency-key equality is checked, not proved."),
+        "technique": "Coq proof (driver model, worklist reachability instance, order independence) + refutation witnesses + model-predicted histories compared with the real code + proved decision procedures on real slots",
+    },
 }
 NOT_YET = {}
